@@ -34,7 +34,7 @@ ASSUMPTIONS = [
     "matching notes = reference evaluation of the (trivial) W clause over the raw sqlite rows",
     "ties between equal order keys are not judged; an alpha key in non-last position is not judged when one item text is a proper prefix of the other",
 ]
-REQUIRED_COUNTERS = ["enter._group_notes_by", "enter._order_notes_by", "enter._select", "enter._get_header"]
+REQUIRED_COUNTERS = ["enter._group_notes_by", "enter._order_notes_by", "enter._select", "enter._get_header", "cli.query_runs"]
 MIN_JUDGED = {"quick": 800, "thorough": 20000}
 FINDING_NONE = "C09-order-none-compares-line-numbers-as-text"
 HEADERS = {1: "#" * 32, 2: "=" * 24, 3: "+" * 16, 4: "-" * 8}
@@ -162,6 +162,12 @@ def check_query(acc: Acc, root, dump, uni, select: str, kinds: str, prios, group
     finally:
         db.fresh_process_state()
     acc.judged += 1
+    if acc.evaluations % 8 == 0:
+        # the user-level route: `zorg query TEXT` (argument parser, query normalisation, runner) must print the same result
+        rq = db.cli(root, "query", text)
+        acc.count("cli.query_runs")
+        if rq.rc != 0 or rq.out.rstrip("\n") != out.rstrip("\n"):
+            acc.violation(f"`zorg query {text!r}` (rc={rq.rc}) prints something else than the query service returns: {rq.out[:200]!r} vs {out[:200]!r} {rq.err[-200:]}", case, cls="CLI query output differs from the service result")
     eff_orders = orders or ["type", "priority", "modify", "create"]
     leaves = parse_output(out)
     dims = groups[:]
